@@ -203,6 +203,32 @@ func runC17(c *engine.Ctx) {
 	if refcnt == nil {
 		c.AnchorMissing(r3, "peermanager.peerProcessInstance.refcnt")
 	} else {
+		// the reference count can reach "no references" from a process created without a Connected (count 0):
+		// the decrement must not wrap — signed type, or guarded by count > 0
+		signed := false
+		if b, ok := refcnt.Type().Underlying().(*types.Basic); ok && b.Info()&types.IsInteger != 0 && b.Info()&types.IsUnsigned == 0 {
+			signed = true
+		}
+		for _, f := range pmFns {
+			for _, st := range engine.StoresTo([]*ssa.Function{f}, refcnt) {
+				bo, ok := st.Val.(*ssa.BinOp)
+				if !ok || bo.Op != token.SUB {
+					continue
+				}
+				guarded := false
+				for _, cd := range engine.InstrConds(st) {
+					if cb, ok := cd.V.(*ssa.BinOp); ok && isLoadOfField(cb.X, refcnt) {
+						k, _ := engine.ConstInt(cb.Y)
+						if k == 0 && ((cb.Op == token.GTR && cd.Pol) || (cb.Op == token.NEQ && cd.Pol) || (cb.Op == token.EQL && !cd.Pol) || (cb.Op == token.LEQ && !cd.Pol)) {
+							guarded = true
+						}
+					}
+				}
+				c.Decide(r3, engine.FuncName(f)+"|refcount-no-wrap", st.Pos(), signed || guarded,
+					"the reference count is signed (a process created by a send starts at 0 and a disconnect takes it to -1 = no references)",
+					"the reference count is unsigned and decremented unguarded: a process created by a send (count 0) wraps to the maximum on disconnect, is never deleted or shut down, and outlives its peer's last disconnect")
+			}
+		}
 		found := false
 		for _, f := range pmFns {
 			// the function that decrements refcnt
